@@ -1,2 +1,261 @@
-/- Model driver for C12 (line protocol). Stub until the property's model lands. -/
-def main : IO Unit := pure ()
+/-
+  Model driver for C12 (line protocol, see tools/props/c12.py `model_line`). Imports Model only.
+
+    case <kind> <chain> <check> <script> <op> <op> ...
+      kind    stream | mt:<block_size> | raw | block
+      chain   filters joined by '+':  L2.<lc>.<lp>.<pb>.<dict> | L1.<lc>.<lp>.<pb>.<dict> | D.<dist> | B.<id>.<start>
+      script  what the real compressor decided, read back from the real output: Blocks separated by '/', each
+              "<mt header size>.<stored 0|1>:<n>.<csize>,<n>.<csize>,..."  ("-" = no Blocks)
+      ops     r:<len> | s:<len> | f:<len> | b:<len> | F:<len> | u:<chain>
+
+  Output:  rc=<ret per op> in=<total_in per op> out=<predicted total_out per op> st=<structure of all output>
+  in the format of harness/c12_main.c. The compressor of `Flush.Env` is instantiated by the script: under LZMA_RUN it
+  never closes a chunk (a chunk that the real encoder closed earlier is closed at the next flush instead, which
+  gives the same bytes), when flushing it closes the chunk that the script lists at the current offset.
+-/
+import XzVerif.Model.Proto
+import XzVerif.Model.Flush
+open XzVerif XzVerif.Proto XzVerif.Flush
+
+structure BlockScript where
+  hsize : Nat
+  stored : Bool
+  chunks : Array (Nat × Nat × Nat)     -- (start offset, n, csize)
+
+def parseNat? (s : String) : Option Nat := s.toNat?
+
+def parseFilter (s : String) : Option Filter :=
+  match s.splitOn "." with
+  | ["L2", lc, lp, pb, d] => do
+      pure { id := ID_LZMA2, kind := .lzma2, props := ⟨← lc.toNat?, ← lp.toNat?, ← pb.toNat?⟩, dict := ← d.toNat? }
+  | ["L1", lc, lp, pb, d] => do
+      pure { id := ID_LZMA1, kind := .lzma1, props := ⟨← lc.toNat?, ← lp.toNat?, ← pb.toNat?⟩, dict := ← d.toNat? }
+  | ["D", dist] => do pure { id := ID_DELTA, kind := .delta, dist := ← dist.toNat? }
+  | ["B", id, start] => do pure { id := ← id.toNat?, kind := .bcj, start := ← start.toNat? }
+  | _ => none
+
+def parseChain (s : String) : Option Chain := (s.splitOn "+").mapM parseFilter
+
+def parseBlockScript (s : String) : Option BlockScript :=
+  match s.splitOn ":" with
+  | [hd, ch] =>
+    match hd.splitOn "." with
+    | [h, st] => do
+      let h ← h.toNat?
+      let st ← st.toNat?
+      let items := if ch == "" then [] else ch.splitOn ","
+      let mut off := 0
+      let mut arr : Array (Nat × Nat × Nat) := #[]
+      for it in items do
+        match it.splitOn "." with
+        | [n, c] =>
+          let n ← n.toNat?
+          let c ← c.toNat?
+          arr := arr.push (off, n, c)
+          off := off + n
+        | _ => none
+      pure { hsize := h, stored := st != 0, chunks := arr }
+    | _ => none
+  | _ => none
+
+def parseScript (s : String) : Option (Array BlockScript) :=
+  if s == "-" then some #[] else ((s.splitOn "/").mapM parseBlockScript).map List.toArray
+
+def zeros (n : Nat) : Bytes := List.replicate n 0
+
+/-- The compressor replayed from the script (state type Unit). -/
+def scriptCodec (scr : Array BlockScript) (ord : Nat) : Codec Unit :=
+  { reset := fun _ => ()
+    choose := fun fl _ _ d _ =>
+      if !fl then none
+      else match scr[ord]? with
+        | none => none
+        | some b => match b.chunks.find? (fun c => c.1 == d.length) with
+          | none => none
+          | some (_, n, c) => some (⟨n, zeros c⟩, ())
+    dec := fun _ _ _ _ _ => none }
+
+/-- bytes a BCJ encoder must have before it filters (and passes on) anything: x86 `size <= 4 -> 0`,
+    ARM/ARM64/PowerPC/SPARC 4-byte units, ARM-Thumb `size < 4 -> 0`, IA-64 16-byte bundles, RISC-V `size < 8 -> 0` -/
+def bcjNeed (id : Nat) : Nat :=
+  if id = ID_X86 then 5 else if id = ID_IA64 then 16 else if id = ID_RISCV then 8 else 4
+
+def scriptEnv (scr : Array BlockScript) : Env Unit :=
+  { codec := scriptCodec scr
+    hold := fun fs avail =>
+      -- simple_coder.c + the filter functions: nothing is handed on before the filter has seen this many bytes
+      -- (afterwards the exact amount held back is not observable at the level compared here)
+      let need := fs.foldl (fun m f => if f.kind == .bcj then max m (bcjNeed f.id) else m) 0
+      if avail.length < need then avail.length else 0
+    checkBytes := fun id _ => zeros (checkSize id)
+    mtStored := fun ord _ => (scr[ord]?.map (·.stored)).getD false
+    mtHeaderSize := fun ord _ => (scr[ord]?.map (·.hsize)).getD 0 }
+
+/-! ### structure string -/
+
+def hex2 (n : Nat) : String := String.ofList [hexDigit (n / 16 % 16), hexDigit (n % 16)]
+
+def getDistSlot (x : Nat) : Nat :=
+  if x < 4 then x else let n := Nat.log2 x; 2 * n + (x / 2 ^ (n - 1)) % 2
+
+/-- `lzma_lzma2_props_encode` -/
+def lzma2DictByte (dict : Nat) : Nat :=
+  let d := (max dict 4096) - 1
+  let d := d ||| (d >>> 2)
+  let d := d ||| (d >>> 3)
+  let d := d ||| (d >>> 4)
+  let d := d ||| (d >>> 8)
+  let d := d ||| (d >>> 16)
+  let d := d % 4294967296
+  if d == 4294967295 then 40 else getDistSlot (d + 1) - 24
+
+def filterStr (f : Filter) : String :=
+  let props := match f.kind with
+    | .lzma2 => hex2 (lzma2DictByte f.dict)
+    | .delta => hex2 (f.dist - 1)
+    | .bcj => if f.start = 0 then "-" else hex2 (f.start % 256) ++ hex2 (f.start / 256 % 256) ++ hex2 (f.start / 65536 % 256) ++ hex2 (f.start / 16777216 % 256)
+    | .lzma1 => "?"
+  s!"{f.id}:{props}"
+
+/-- Walks LZMA2 chunk framing of model output. Returns (items, end marker seen, usize sum, bytes consumed). -/
+def walkChunks : Nat → Bytes → List String → Nat → Nat → List String × Bool × Nat × Nat
+  | 0, _, acc, us, pos => (acc.reverse, false, us, pos)
+  | fuel + 1, b, acc, us, pos =>
+    match b with
+    | [] => (acc.reverse, false, us, pos)
+    | c :: rest =>
+      let c := c.toNat
+      if c == 0 then (acc.reverse, true, us, pos + 1)
+      else if c ≥ 0x80 then
+        match rest with
+        | b1 :: b2 :: b3 :: b4 :: r1 =>
+          let n := (c % 32) * 65536 + b1.toNat * 256 + b2.toNat + 1
+          let cs := b3.toNat * 256 + b4.toNat + 1
+          if c ≥ 0xC0 then
+            match r1 with
+            | p :: r2 => walkChunks fuel (r2.drop cs) (s!"c{c}.{n}.{cs}.{p.toNat}" :: acc) (us + n) (pos + 6 + cs)
+            | [] => (acc.reverse, false, us, pos)
+          else walkChunks fuel (r1.drop cs) (s!"c{c}.{n}.{cs}.-" :: acc) (us + n) (pos + 5 + cs)
+        | _ => (acc.reverse, false, us, pos)
+      else
+        match rest with
+        | b1 :: b2 :: r1 =>
+          let n := b1.toNat * 256 + b2.toNat + 1
+          walkChunks fuel (r1.drop n) (s!"c{c}.{n}.{n}.-" :: acc) (us + n) (pos + 3 + n)
+        | _ => (acc.reverse, false, us, pos)
+
+def optStr : Option Nat → String
+  | none => "-"
+  | some v => toString v
+
+def indexSize (recs : List (Nat × Nat)) : Nat :=
+  let body := 1 + Vli.vliSize recs.length + recs.foldl (fun a r => a + Vli.vliSize r.1 + Vli.vliSize r.2) 0
+  (body + 3) / 4 * 4 + 4
+
+structure Rend where
+  str : String := ""
+  len : Nat := 0                 -- bytes rendered so far
+  curBody : Bytes := []          -- body of the Block (or raw stream) being collected
+  inBlock : Bool := false
+  ord : Nat := 0                 -- Blocks started so far
+
+def Rend.flushBlock (r : Rend) : Rend :=
+  if !r.inBlock then r
+  else
+    let (items, ended, us, pos) := walkChunks (r.curBody.length + 1) r.curBody [] 0 0
+    let k := ";k=" ++ ",".intercalate items
+    let tail := if ended then s!";e=1;u={us};c={pos}" else ";T"
+    { r with str := r.str ++ k ++ tail, curBody := [], inBlock := false }
+
+def Rend.seg (isMt : Bool) (scr : Array BlockScript) (r : Rend) : Seg → Rend
+  | .streamHeader c => { r with str := r.str ++ s!"H{c}", len := r.len + 12 }
+  | .blockHeader fs cs us =>
+    let r := r.flushBlock
+    let h := if isMt then (scr[r.ord]?.map (·.hsize)).getD 0 else (match blockHeaderSize fs none none with | .ok h => h | .error _ => 0)
+    let f := "/".intercalate (fs.map filterStr)
+    { r with str := r.str ++ s!"|B;h={h};cs={optStr cs};us={optStr us};f={f}", len := r.len + h, inBlock := true, ord := r.ord + 1 }
+  | .body b => { r with curBody := r.curBody ++ b, len := r.len + b.length }
+  | .index recs =>
+    let r := r.flushBlock
+    let items := recs.map fun (u, s) => s!"{u}.{s}"
+    { r with str := r.str ++ s!"|I;n={recs.length};r=" ++ ",".intercalate items, len := r.len + indexSize recs }
+  | .streamFooter _ _ => { r with str := r.str ++ "|F", len := r.len + 12 }
+
+def rawStructure (body : Bytes) : String :=
+  let (items, ended, us, pos) := walkChunks (body.length + 1) body [] 0 0
+  "R;k=" ++ ",".intercalate items ++ s!";e={if ended then 1 else 0};u={us};c={pos}" ++ (if ended then s!";tail={body.length - pos}" else ";T")
+
+def parseOp (s : String) : Option Op :=
+  match s.splitOn ":" with
+  | [k, arg] =>
+    if k == "u" then (parseChain arg).map Op.update
+    else do
+      let n ← arg.toNat?
+      let a ← (match k with | "r" => some Action.run | "s" => some .syncFlush | "f" => some .fullFlush
+                            | "b" => some .fullBarrier | "F" => some .finish | _ => none)
+      pure (Op.code a (zeros n))
+  | _ => none
+
+def runCase (ws : List String) : Option String := do
+  match ws with
+  | _ :: kind :: chain :: check :: script :: ops =>
+    let fs ← parseChain chain
+    let check ← check.toNat?
+    let scr ← parseScript script
+    let ops ← ops.mapM parseOp
+    let E := scriptEnv scr
+    let kparts := kind.splitOn ":"
+    let isMt := kparts.head? == some "mt"
+    let enc : Enc Unit ←
+      match kparts with
+      | ["stream"] =>
+        let (s, r) := StreamEnc.init (E.codec 0) fs check
+        if r != .ok then none else some { core := .stream s, supported := supportedStream, dead := false, finished := false }
+      | ["mt", bs] => do
+        let bs ← bs.toNat?
+        some { core := .mt (MtEnc.init fs check bs), supported := supportedMt, dead := false, finished := false }
+      | ["raw"] =>
+        if rawInitRet fs != .ok then none
+        else some { core := .raw (RawEnc.init (E.codec 0) fs), supported := supportedRaw, dead := false, finished := false }
+      | ["block"] =>
+        match BlockEnc.init (E.codec 0) fs check with
+        | .ok b => some { core := .block b, supported := supportedBlock, dead := false, finished := false }
+        | .error _ => none
+      | _ => none
+    let isStreamKind := kparts.head? == some "stream" || isMt
+    -- run the history op by op (the harness stops after a fatal error or after FINISH completed)
+    let mut e := enc
+    let mut rcs : List String := []
+    let mut ins : List String := []
+    let mut outs : List String := []
+    let mut rend : Rend := {}
+    let mut rawBody : Bytes := []
+    let mut totalIn := 0
+    for op in ops do
+      if e.dead || e.finished then
+        rcs := "-" :: rcs
+      else
+        let (e1, res) := e.step E op
+        e := e1
+        totalIn := totalIn + res.used
+        rcs := toString res.ret.toNat :: rcs
+        if isStreamKind then
+          rend := res.segs.foldl (Rend.seg isMt scr) rend
+        else
+          for sg in res.segs do
+            match sg with
+            | .body b => rawBody := rawBody ++ b
+            | _ => pure ()
+      ins := toString totalIn :: ins
+      outs := toString (if isStreamKind then rend.len else rawBody.length) :: outs
+    let st := if isStreamKind then (rend.flushBlock).str else rawStructure rawBody
+    let j := fun (l : List String) => if l.isEmpty then "-" else ",".intercalate l.reverse
+    pure s!"rc={j rcs} in={j ins} out={j outs} st={if st == "" then "-" else st} dead={if e.dead then 1 else 0}"
+  | _ => none
+
+def step (_ : Unit) (ws : List String) : Unit × String :=
+  match ws with
+  | "case" :: _ => ((), (runCase ws).getD "bad-op")
+  | _ => ((), "bad-op")
+
+def main : IO Unit := runLoop step ()
